@@ -5,6 +5,7 @@ import (
 	"fmt"
 	"io"
 	"net/http"
+	"unicode/utf8"
 
 	"github.com/DemoHn/Zn/pkg/exec"
 	"github.com/DemoHn/Zn/pkg/runtime"
@@ -41,6 +42,12 @@ func readRequestForPlayground(r *http.Request) ([]rune, map[string]runtime.Eleme
 	body, err := io.ReadAll(r.Body)
 	if err != nil {
 		return nil, nil, fmt.Errorf("读取请求内容出现异常：%s", err.Error())
+	}
+
+	// encoding/json replaces bytes that are not valid UTF-8 by U+FFFD without a word: the
+	// program would run altered. Like a source file, such a request is rejected
+	if !utf8.Valid(body) {
+		return nil, nil, fmt.Errorf("请求内容并非有效的 UTF-8 编码")
 	}
 
 	var reqInfo playgroundReq
